@@ -15,26 +15,45 @@ THEOREMS = [
     "C35_updreq_roundtrip", "C35_ulreq_roundtrip",
     "C35_capadv_roundtrip", "C35_cmdreq_roundtrip", "C35_lsargs_roundtrip", "C35_fetchargs_roundtrip", "C35_lsout_roundtrip",
     "C35_fetchout_roundtrip", "C35_fetchout_noready_refuted", "C35_fetchout_position",
-    "C35_shupd_git", "C35_uphav_git", "C35_srvresp_git", "C35_report_git", "C35_pushopts_git", "C35_capadv_git", "C35_lsout_git",
+    "C35_shupd_git", "C35_uphav_git", "C35_srvresp_git", "C35_report_git", "C35_pushopts_git", "C35_capadv_git", "C35_lsout_git", "C35_ulreq_git",
 ]
 MODEL_FILES = ["PktLine.v", "C35UniTable.v", "C35Utf8.v", "Packp.v", "PackpV2.v"]
 MODELLED = ("plumbing/protocol/capability/list.go DecodeList / Add / AppendText; plumbing/objectid.go FromHex / NewHash / String / IsZero / Compare; "
-            "plumbing/protocol/packp: AdvRefs, UploadRequest, UploadHaves, ServerResponse, ShallowUpdate, UpdateRequests, ReportStatus, PushOptions "
-            "Encode and Decode (Model/Packp.v) on top of the pkt-line model of C34. Decoders read through pktline.Scanner only, so the model "
-            "takes the sequence of Scan results. Not modelled: Unicode white space in bytes.TrimSpace, unicode.IsGraphic beyond ASCII, fmt.Sscanf "
-            "beyond single-space separated ASCII tokens (model evaluated on ASCII inputs only), sort.Slice instability (lists stay below 12 "
-            "elements where it is an insertion sort); protocol v2 messages (CommandRequest, CapabilityAdv, LsRefs, Fetch) are exercised by the "
-            "round-trip oracle only, without a model")
+            "plumbing/protocol/packp v0/v1: AdvRefs, UploadRequest (with the filter line), UploadHaves, ServerResponse, ShallowUpdate (SHA-1 and SHA-256), "
+            "UpdateRequests, ReportStatus, PushOptions Encode and Decode (Model/Packp.v) on top of the pkt-line model of C34; "
+            "protocol v2 (Model/PackpV2.v): EncodeListV2 / DecodeListV2, CapabilityAdv, CommandRequest with nil / *LsRefsArgs / *FetchArgs arguments, "
+            "validateRefPrefix, LsRefsOutput (parseLsRefsLine, parseFullHash, symref-target: and peeled: attributes), FetchOutput (acknowledgments, "
+            "shallow-info, wanted-refs, packfile-uris sections, section order, the packfile header, where Decode stops reading). "
+            "bytes.TrimSpace / strings.TrimSpace / strings.Fields / strings.ContainsFunc and unicode.IsSpace / IsControl / IsGraphic are modelled "
+            "byte-wise over UTF-8 (Model/C35Utf8.v; IsGraphic through the interval table Model/C35UniTable.v, whose digest is recomputed from the "
+            "toolchain's unicode tables on every run), so the models are evaluated on arbitrary bytes. The v0 decoders read through pktline.Scanner "
+            "(model: the sequence of Scan results), the v2 decoders call pktline.ReadLine (model: the ReadLine results of the chunked reader, with the "
+            "bytes left unread). S (Spec/GitProto.v): the pkt-level grammars of git's pack-protocol / protocol-v2 documents for every message. "
+            "Not modelled: fmt.Sscanf beyond single-space separated ASCII tokens in UpdateRequests.parseCommand (the model answers 'unmodelled'), "
+            "sort.Slice instability (lists stay below 12 elements where it is an insertion sort), the limits tooManyRefPrefixes (65536 ref-prefix "
+            "lines) and maxSectionLines (2^22 lines per section)")
 TRUSTED = [
-    "C-impl: harness/cmd/c35 (packp Encode/Decode over a chunked reader, capability.DecodeList) vs Model/Packp.v on every ASCII case",
-    "direct oracle: decode(encode(v)) = canon(v) computed in props/C35.py for well-formed values of every message",
-    "C-git: go-git's reference advertisement is read by `git ls-remote ext::cat` (git 2.39.5) and must list exactly the advertised refs",
+    "C-impl: harness/cmd/c35 (packp Encode/Decode over a chunked reader, capability.DecodeList) vs Model/Packp.v and Model/PackpV2.v on every case",
+    "direct oracle: decode(encode(v)) = canon(v) computed in props/C35.py for well-formed values of every message (v2: and nothing left unread)",
+    "C-git (suite git): go-git's encodings are read by git 2.39.5 — `git ls-remote` (v0/v1 and v2, through a scripted peer `c35 stub` on the ext:: "
+    "transport), `git upload-pack --stateless-rpc` (v0 upload-request + haves; v2 ls-refs and fetch commands), `git receive-pack --stateless-rpc` "
+    "(update-request, push-options seen by a pre-receive hook), `git push --porcelain` (report-status), `git fetch` v0 and v2 (shallow-update, "
+    "server-response, fetch output + side-band pack) — and git's own advertisements, requests and responses are decoded by go-git; git's answers "
+    "are compared with a table of the fixed 4-commit repository (props/c35_git.py)",
+    "S vs git: Spec/GitProto.v is evaluated (Coq) on the same bytes and on edited variants: what S accepts git accepts, with the value go-git encoded; "
+    "what git refuses S refuses (refusals for what a request means on that server are set aside); disagreements are recorded as spec_mismatches",
 ]
-ASSUMPTIONS = ["git ls-remote prints the refs of the advertisement it parsed, one `<hash>\\t<name>` line each",
-               "message values stay below 12 references / hashes per list (sort.Slice and sort.Sort are insertion sorts there)"]
-RULE = ("case = message value (refs with/without HEAD, peeled tags in any position incl. the first ref, shallows, capabilities with values, "
-        "sha1/sha256 ids, commands, statuses, options, acks, depth forms, filter) + chunking, or a raw byte stream built from a valid "
-        "encoding by truncation / byte edits / line shuffles; non-trivial = not the empty value; distinct by content")
+ASSUMPTIONS = ["git ls-remote prints the refs of the advertisement it parsed, one `<hash>\\t<name>` line each, and `ref: <target>\\t<name>` for symrefs",
+               "message values stay below 12 references / hashes per list (sort.Slice and sort.Sort are insertion sorts there)",
+               "the table of git's answers on the fixed repository (shallow boundaries, common haves, object counts) in props/c35_git.py describes git 2.39.5; "
+               "cases outside the table (client shallows, negotiation against a depth request) are only checked for acceptance",
+               "Model/C35UniTable.v lists the maximal IsGraphic intervals of the toolchain's Unicode tables (15.0.0); compared by digest on every run"]
+RULE = ("case = message value (v0: refs with/without HEAD, peeled tags in any position incl. the first ref, shallows, capabilities with values, "
+        "sha1/sha256 ids, commands, statuses, options incl. non-ASCII UTF-8, acks, depth forms, filter; v2: capability lists, command requests with "
+        "ls-refs / fetch arguments, ls-refs output with symbolic, unborn and peeled entries, fetch output with every section combination) + chunking, "
+        "or a raw byte stream built from a valid encoding by truncation / byte edits / Unicode and ASCII white space at line ends / line shuffles / "
+        "extra special packets / the wrong decoder, or a C-git scenario (the values of one conversation with a git client or server); "
+        "non-trivial = not the empty value; distinct by content")
 
 Z40 = "0" * 40
 CAPS_POOL = [("multi_ack", []), ("thin-pack", []), ("side-band-64k", []), ("ofs-delta", []), ("report-status", []),
